@@ -12,25 +12,218 @@ theorem stepMsgNew_inv {g : G} (h : Inv g) (m : Nat) (name : String) (mid : Nat)
   unfold stepMsgNew
   repeat' split
   all_goals first | exact h | skip
-  inv_groups h
+  inv_groups h []
 
 theorem stepMsgResize_inv {g : G} (h : Inv g) (m : Nat) (k : Int) : Inv (stepMsgResize g m k).1 := by
   unfold stepMsgResize
   try dsimp only
   repeat' split
   all_goals first | exact h | skip
-  all_goals inv_groups h
+  all_goals inv_groups h []
 
 theorem stepMsgRename_inv {g : G} (h : Inv g) (m : Nat) (name : String) : Inv (stepMsgRename g m name).1 := by
   unfold stepMsgRename
   try dsimp only
   repeat' split
   all_goals first | exact h | skip
-  · inv_groups h
+  · rename_i _ msg hm hne _ hs
+    inv_groups h [hm]
   · rename_i _ msg hm hne _ i hs _ ifc hi hfree
     have s1 : msgSender g.msgs m = some i := by rw [msgSender_of_get hm]; exact hs
     have s2 := h.sent.s2 s1
     have s3 := h.sent.n2 s1 (msgName_of_get hm)
-    inv_groups h
+    inv_groups h [hm, hi]
+
+set_option maxHeartbeats 1000000 in
+theorem stepMsgSetId_inv {g : G} (h : Inv g) (m mid : Nat) : Inv (stepMsgSetId g m mid).1 := by
+  unfold stepMsgSetId
+  try dsimp only
+  repeat' split
+  all_goals first | exact h | skip
+  · rename_i _ msg hm hne _ hs
+    inv_groups h [hm]
+  · rename_i _ msg hm hne _ i hs _ ifc hi hfree _ c hc
+    have s1 : msgSender g.msgs m = some i := by rw [msgSender_of_get hm]; exact hs
+    have s2 := h.sent.s2 s1
+    have s3 : msgStatic g.msgs m = some c := by rw [msgStatic_of_get hm]; exact hc
+    have s4 := h.sent.t2 s1 s3
+    have s5 : ifaceBus g.ifaces i = ifc.parentBus := ifaceBus_of_get hi
+    have s7 : ∀ b, ifc.parentBus = some b → g.buses.get b ≠ none := fun b hb =>
+      h.bus.bus_exists (ifaceNode_of_get hi) (by rw [s5]; exact hb)
+    have e1 := ifaceSentIDs_of_get hi
+    have e2 := ifaceSentStatic_of_get hi
+    inv_norm
+    inv_split
+    case static =>
+      o_static h
+      refine ⟨?_, ?_⟩
+      · inv_field [hm, hi]
+      · intro b
+        views_simp
+        split
+        · rename_i hb
+          have hb' : ifaceBus g.ifaces i = some b := by rw [s5]; exact hb.1
+          refine idx_remove (st_g b) ⟨s3, i, s1, hb'⟩ ?_ ?_
+          · intro k hk; have := hk.1; rw [s3] at this; exact (Option.some.inj this).symm
+          · intro k x; unfold MsgOnBus; grind
+        · refine idx_congr (st_g b) ?_
+          intro k x; unfold MsgOnBus; grind
+    case sent =>
+      o_sent h
+      refine ⟨?_, ?_, ?_, ?_, ?_, ?_, ?ids, ?stat⟩
+      case ids =>
+        intro j
+        views_simp
+        split
+        · rename_i hj; subst hj
+          rw [← e1]
+          refine idx_add (se_ig j) (by rw [e1]; exact hfree) ?_ ?_
+          · intro k hk; rw [s3] at hk; simp at hk
+          · intro k x; grind
+        · refine idx_congr (se_ig j) ?_
+          intro k x; grind
+      case stat =>
+        intro j
+        views_simp
+        split
+        · rename_i hj; subst hj
+          rw [← e2]
+          refine idx_remove (se_tg j) ⟨s2, s3⟩ ?_ ?_
+          · intro k hk; have := hk.2; rw [s3] at this; exact (Option.some.inj this).symm
+          · intro k x; grind
+        · refine idx_congr (se_tg j) ?_
+          intro k x; grind
+      all_goals inv_field [hm, hi]
+    inv_rest h [hm, hi]
+  · rename_i _ msg hm hne _ i hs _ ifc hi hfree _ hc
+    have s1 : msgSender g.msgs m = some i := by rw [msgSender_of_get hm]; exact hs
+    have s2 := h.sent.s2 s1
+    have s3 : msgStatic g.msgs m = none := by rw [msgStatic_of_get hm]; exact hc
+    have s4 : msgMid g.msgs m = some msg.mid := msgMid_of_get hm
+    have e1 := ifaceSentIDs_of_get hi
+    inv_norm
+    inv_split
+    case sent =>
+      o_sent h
+      refine ⟨?_, ?_, ?_, ?_, ?_, ?_, ?ids, ?_⟩
+      case ids =>
+        intro j
+        views_simp
+        split
+        · rename_i hj; subst hj
+          rw [← e1]
+          refine idx_modify (se_ig j) ⟨s2, s4, s3⟩ ?_ (Or.inr (by rw [e1]; exact hfree)) ?_
+          · intro k hk; have := hk.2.1; rw [s4] at this; exact (Option.some.inj this).symm
+          · intro k x; grind
+        · refine idx_congr (se_ig j) ?_
+          intro k x; grind
+      all_goals inv_field [hm, hi]
+    inv_rest h [hm, hi]
+
+set_option maxHeartbeats 1000000 in
+theorem stepMsgSetStatic_inv {g : G} (h : Inv g) (m c : Nat) : Inv (stepMsgSetStatic g m c).1 := by
+  unfold stepMsgSetStatic
+  try dsimp only
+  repeat' split
+  all_goals first | exact h | skip
+  · rename_i _ msg hm _ hs
+    inv_groups h [hm]
+  · -- the message already has a static CAN-ID `old`
+    rename_i _ msg hm _ i hs _ ifc hi hfree hclash _ old hc
+    have s1 : msgSender g.msgs m = some i := by rw [msgSender_of_get hm]; exact hs
+    have s2 := h.sent.s2 s1
+    have s3 : msgStatic g.msgs m = some old := by rw [msgStatic_of_get hm]; exact hc
+    have s5 : ifaceBus g.ifaces i = ifc.parentBus := ifaceBus_of_get hi
+    have s7 : ∀ b, ifc.parentBus = some b → g.buses.get b ≠ none := fun b hb =>
+      h.bus.bus_exists (ifaceNode_of_get hi) (by rw [s5]; exact hb)
+    have e2 := ifaceSentStatic_of_get hi
+    inv_norm
+    inv_split
+    case static =>
+      o_static h
+      refine ⟨?_, ?_⟩
+      · inv_field [hm, hi]
+      · intro b
+        views_simp
+        split
+        · rename_i hb
+          have hb' : ifaceBus g.ifaces i = some b := by rw [s5]; exact hb.1
+          refine idx_modify (st_g b) ⟨s3, i, s1, hb'⟩ ?_ (Or.inr ?_) ?_
+          · intro k hk; have := hk.1; rw [s3] at this; exact (Option.some.inj this).symm
+          · rw [hb.1] at hclash; simpa using hclash
+          · intro k x; unfold MsgOnBus; grind
+        · refine idx_congr (st_g b) ?_
+          intro k x; unfold MsgOnBus; grind
+    case sent =>
+      o_sent h
+      refine ⟨?_, ?_, ?_, ?_, ?_, ?_, ?_, ?stat⟩
+      case stat =>
+        intro j
+        views_simp
+        split
+        · rename_i hj; subst hj
+          rw [← e2]
+          refine idx_modify (se_tg j) ⟨s2, s3⟩ ?_ (Or.inr (by rw [e2]; exact hfree)) ?_
+          · intro k hk; have := hk.2; rw [s3] at this; exact (Option.some.inj this).symm
+          · intro k x; grind
+        · refine idx_congr (se_tg j) ?_
+          intro k x; grind
+      all_goals inv_field [hm, hi]
+    inv_rest h [hm, hi]
+  · -- the message had a generated CAN-ID
+    rename_i _ msg hm _ i hs _ ifc hi hfree hclash _ hc
+    have s1 : msgSender g.msgs m = some i := by rw [msgSender_of_get hm]; exact hs
+    have s2 := h.sent.s2 s1
+    have s3 : msgStatic g.msgs m = none := by rw [msgStatic_of_get hm]; exact hc
+    have s4 : msgMid g.msgs m = some msg.mid := msgMid_of_get hm
+    have s5 : ifaceBus g.ifaces i = ifc.parentBus := ifaceBus_of_get hi
+    have s7 : ∀ b, ifc.parentBus = some b → g.buses.get b ≠ none := fun b hb =>
+      h.bus.bus_exists (ifaceNode_of_get hi) (by rw [s5]; exact hb)
+    have e1 := ifaceSentIDs_of_get hi
+    have e2 := ifaceSentStatic_of_get hi
+    inv_norm
+    inv_split
+    case static =>
+      o_static h
+      refine ⟨?_, ?_⟩
+      · inv_field [hm, hi]
+      · intro b
+        views_simp
+        split
+        · rename_i hb
+          have hb' : ifaceBus g.ifaces i = some b := by rw [s5]; exact hb.1
+          refine idx_add (st_g b) ?_ ?_ ?_
+          · rw [hb.1] at hclash; simpa using hclash
+          · intro k hk; have := hk.1; rw [s3] at this; cases this
+          · intro k x; unfold MsgOnBus; grind
+        · refine idx_congr (st_g b) ?_
+          intro k x; unfold MsgOnBus; grind
+    case sent =>
+      o_sent h
+      refine ⟨?_, ?_, ?_, ?_, ?_, ?_, ?ids, ?stat⟩
+      case ids =>
+        intro j
+        views_simp
+        split
+        · rename_i hj; subst hj
+          rw [← e1]
+          refine idx_remove (se_ig j) ⟨s2, s4, s3⟩ ?_ ?_
+          · intro k hk; have := hk.2.1; rw [s4] at this; exact (Option.some.inj this).symm
+          · intro k x; grind
+        · refine idx_congr (se_ig j) ?_
+          intro k x; grind
+      case stat =>
+        intro j
+        views_simp
+        split
+        · rename_i hj; subst hj
+          rw [← e2]
+          refine idx_add (se_tg j) (by rw [e2]; exact hfree) ?_ ?_
+          · intro k hk; have := hk.2; rw [s3] at this; cases this
+          · intro k x; grind
+        · refine idx_congr (se_tg j) ?_
+          intro k x; grind
+      all_goals inv_field [hm, hi]
+    inv_rest h [hm, hi]
 
 end Acme.Graph
